@@ -11,9 +11,15 @@ from __future__ import annotations
 import itertools
 import multiprocessing as mp
 import os
+import signal
+import threading
 import time
 
 from .core import Obligation, PROVED, REFUTED, ERROR
+
+
+class _CaseTimeout(BaseException):
+    pass
 
 
 def _worker(args):
@@ -21,14 +27,30 @@ def _worker(args):
     from . import boundedchecks
     fn = getattr(boundedchecks, name)
     out = []
+    # every case runs real code of the tree under test: a case that does not come back (a loop that stopped terminating) is
+    # a failed case with a reason, not a check that never ends
+    limit = float(os.environ.get("PYVC_BOUNDED_CASE_SECONDS", "120"))
+    can_alarm = threading.current_thread() is threading.main_thread()
+
+    def on_alarm(signum, frame):
+        raise _CaseTimeout()
     for case in chunk:
+        old = signal.signal(signal.SIGALRM, on_alarm) if can_alarm else None
+        if can_alarm:
+            signal.setitimer(signal.ITIMER_REAL, limit)
         try:
             r = fn(case)
+        except _CaseTimeout:
+            r = f"the real code did not return within {limit:.0f} s on this case (non-termination)"
         except BaseException as e:  # noqa
             r = f"contract check crashed: {type(e).__name__}: {e}"
+        finally:
+            if can_alarm:
+                signal.setitimer(signal.ITIMER_REAL, 0)
+                signal.signal(signal.SIGALRM, old)
         if r is not None:
             out.append((case, r))
-            if len(out) >= 3:
+            if len(out) >= 3 or "(non-termination)" in r:
                 break
     return len(chunk), out
 
